@@ -155,7 +155,13 @@ def gen_plan(rng, tier):
         elif r < copy_p + nice_p + 0.115:
             ops.append(["copy_chain", i, rng.choice([40, 1200])])
         elif r < copy_p + nice_p + 0.13:
-            ops.append(["bystander", i])
+            if rng.random() < 0.5:
+                ops.append(["bystander", i])
+            else:
+                # the bystander comes first; then an ordinary scale is moved onto its end points
+                dd, rr, cc = _pair(rng, lo, hi, style), _pair(rng, lo, hi, rng.choice([style, "int"])), rng.random() < 0.3
+                ops.append(["bystander", i, dd, rr, cc])
+                ops.append(["chain", i, list(dd), list(rr), cc])
         elif r < copy_p + nice_p + 0.22:
             d = _pair(rng, lo, hi, style)
             if rng.random() < 0.03:
@@ -514,8 +520,11 @@ def _run(plan):
                     bump("probe:nice_on_scale_with_living_relative")
             elif kind == "bystander":
                 # another scale with the SAME end points and clamp mode but a custom
-                # interpolator is alive in the process (it is not itself judged)
+                # interpolator is alive in the process (it is not itself judged); either
+                # the end points the target has now, or end points a scale will be given next
                 d, r, c = _reported(target)
+                if len(op) > 2:
+                    d, r, c = op[2], op[3], op[4]
 
                 def _rounding(a, b):
                     return lambda t: round(a * (1 - t) + b * t)
